@@ -20,7 +20,7 @@ RULE = ('statements are generated as source lines from a grammar - reads in expr
 ASSUMPTIONS = ['the grammar is finite; the quick tier covers every production many times (effectively exhaustive over productions x a few operand values)']
 PROBES = []
 PLAN = {
-  'quick': {'strata': {'grammar': 4000, 'two-threads': 4000}, 'wall_s': 300, 'chunk': 100, 'min_conclusive': 1000},
+  'quick': {'strata': {'grammar': 6000, 'two-threads': 8000}, 'wall_s': 300, 'chunk': 100, 'min_conclusive': 1000},
   'thorough': {'strata': {'grammar': 60000, 'two-threads': 100000}, 'wall_s': 600, 'chunk': 250, 'min_conclusive': 1000},
 }
 AUG = ['+=', '-=', '*=', '//=', '**=', '<<=', '>>=', '|=', '&=', '^=', '%=']
